@@ -249,6 +249,10 @@ Fixpoint is_op_cached (o : op) (cf : cfiles) {struct o} : M (bool * cfiles) :=
   match o with
   | OSimple q ret_ ex => b <- is_simple_operation_cached q ret_ ex cf ;; ret (b, cf)
   | OBuildFile p c fname _ _ subs _ cmpres raised sf =>
+      (* a path that is claimed (possibly in progress: its contents are not final) or the cache file:
+         _build_file would raise; checked before the file is looked at *)
+      w0 <- get ;;
+      if cache_has_file (w_new w0) p || path_eqb p (w_cachefile w0) then ret (false, cf) else
       ve <- version_equal fname ;;
       if negb ve then ret (false, cf) else
       ok <- (if raised then ret true else is_build_file_cached p c cmpres) ;;
@@ -256,7 +260,6 @@ Fixpoint is_op_cached (o : op) (cf : cfiles) {struct o} : M (bool * cfiles) :=
       w <- get ;;
       if raised && lexists (w_fs w) p then ret (false, cf) else
       if sf then ret (false, cf) else
-      if cache_has_file (w_new w) p || path_eqb p (w_cachefile w) then ret (false, cf) else
       d <- attempt (dirs_to_make (dirname p) (Some cf)) ;;
       match d with
       | inr e => if is_os e then ret (false, cf) else raise e
